@@ -486,7 +486,7 @@ fn api_table(cases: &mut Cases, rng: &mut Rng, t: &LTable, r: &Realisation, per_
 }
 
 fn api_stream(cases: &mut Cases, rng: &mut Rng, thorough: bool) {
-    let (tables, per_table) = if thorough { (400, 30) } else { (60, 22) };
+    let (tables, per_table) = if thorough { (400, 30) } else { (45, 22) };
     for i in 0..tables {
         let n = *rng.pick(&[1usize, 2, 3, 5, 8, 9, 16, 17, 33, 40, 70]);
         let t = if i % 12 == 11 { nan_table(rng, n) } else { let extra = 1 + rng.below(3) as usize; gen_table(rng, n, extra, true, true) };
